@@ -1205,8 +1205,8 @@ Section Parse.
 
   Lemma gpos1_loop_ok : forall subs hdr s l fuel acc ts0,
     Forall gpos_sub_ok (s :: subs) -> ends_gpos ts0 ->
-    (length (sub_toks U F s l ++ subs_toks U F hdr subs false l ++ ts0) < fuel)%nat ->
-    exists ts', gpos1_loop F endl fuel acc (sub_toks U F s l ++ subs_toks U F hdr subs false l ++ ts0)
+    (length (sub_toks U F s l ++ subs_toks U F hdr subs false (l + sub_dl s) ++ ts0) < fuel)%nat ->
+    exists ts', gpos1_loop F endl fuel acc (sub_toks U F s l ++ subs_toks U F hdr subs false (l + sub_dl s) ++ ts0)
                 = POk (acc ++ s :: subs, ts') /\ norm ts' = norm ts0.
   Proof.
     induction subs as [|s' r IH]; intros hdr s l fuel acc ts0 Hs Hts Hf;
@@ -1218,13 +1218,14 @@ Section Parse.
       destruct Hts as (A & B & C). rewrite optional_miss_n by (rewrite (peek_typ_same ts' ts0 En); exact C).
       unfold ret. eexists. split; [reflexivity|]. rewrite norm_idem. exact En.
     - cbn [subs_toks app] in *. rewrite <- !app_assoc in *. cbn [app] in *.
-      set (X := tk TOr [124; 124] l :: tk TEOL [10] l :: sub_toks U F s' (l + 1) ++ subs_toks U F hdr r false (l + 1) ++ ts0) in *.
+      set (l0 := l + sub_dl s) in *.
+      set (X := tk TOr [124; 124] l0 :: tk TEOL [10] l0 :: sub_toks U F s' (l0 + 1) ++ subs_toks U F hdr r false (l0 + 1 + sub_dl s') ++ ts0) in *.
       assert (HX : ends_sub X) by (split; reflexivity).
       destruct (gpos1_sub_ok s l (S fu) X Hs1 HX Hf) as (ts' & Es & En).
       unfold X in En. rewrite norm_cons2 in En. apply norm_eq_cons in En. subst ts'.
       unfold bind at 1. rewrite Es. unfold bind at 1. rewrite optional_hit by reflexivity.
       unfold bind at 1. rewrite optional_hit by reflexivity.
-      destruct (IH hdr s' (l + 1) fu (acc ++ [s]) ts0 Hsr Hts) as (ts'' & E2 & N2).
+      destruct (IH hdr s' (l0 + 1) fu (acc ++ [s]) ts0 Hsr Hts) as (ts'' & E2 & N2).
       + clear - Hf. unfold X in Hf. fuel_tac.
       + exists ts''. split; auto. rewrite E2. rewrite <- app_assoc. reflexivity.
   Qed.
@@ -1255,57 +1256,656 @@ Section Parse.
     - unfold bind at 1. rewrite El. cbn [app]. unfold ret, mk_lookup. exists ts'. auto.
   Qed.
 
+  (* ---- nested-action lists inside a lookup ---- *)
+  Lemma acts_ok_forall : forall acts, acts_ok acts = true ->
+    Forall (fun a => fst a < 65536 /\ snd a < 65536) acts.
+  Proof.
+    intros acts H. unfold acts_ok in H. apply forallb_Forall in H. eapply Forall_impl; [|exact H].
+    cbn. intros a Ha. apply andb_true_iff in Ha. lia.
+  Qed.
+
+  Lemma read_nested_exact : forall acts l fuel res t0 rest,
+    acts_ok acts = true -> ityp_eqb (ttyp t0) TInt = false -> ityp_eqb (ttyp t0) TEOF = false ->
+    (length (nested_toks acts l) < fuel)%nat ->
+    read_nested endl fuel res (nested_toks acts l ++ t0 :: rest) = POk (res ++ acts, t0 :: rest).
+  Proof.
+    induction acts as [|[li si] acts IH]; intros l fuel res t0 rest Ha Ht He Hf;
+      (destruct fuel as [|fu]; [cbn in Hf; lia|]).
+    - unfold nested_toks. cbn [map concat app read_nested]. unfold bind at 1. cbn [read]. rewrite Ht. cbn [negb].
+      unfold bind. rewrite unread_cons by auto. rewrite app_nil_r. reflexivity.
+    - pose proof (acts_ok_forall _ Ha) as Hb. inversion Hb as [|? ? Hb1 Hb2]; subst. cbn [fst snd] in Hb1. destruct Hb1 as [H1 H2].
+      assert (Ha' : acts_ok acts = true).
+      { unfold acts_ok in *. cbn [forallb] in Ha. apply andb_true_iff in Ha. tauto. }
+      unfold nested_toks. cbn [map concat fst snd app read_nested]. fold (nested_toks acts l).
+      unfold bind at 1. cbn [read ttyp ityp_eqb negb tval]. rewrite atoi_digits_nat.
+      assert (E1 : ((Z.of_N li <? 0)%Z || (65536 <=? Z.of_N li)%Z) = false) by lia. rewrite E1.
+      unfold bind at 1. unfold required, bind at 1. cbn [read ttyp ityp_eqb ret].
+      unfold bind at 1. cbn [read ttyp ityp_eqb negb tval]. rewrite atoi_digits_nat.
+      assert (E2 : ((Z.of_N si <? 0)%Z || (65536 <=? Z.of_N si)%Z) = false) by lia. rewrite E2.
+      rewrite !N2Z.id. rewrite IH; auto.
+      + rewrite <- app_assoc. reflexivity.
+      + unfold nested_toks in *. cbn [map concat app length] in Hf. cbn [length] in Hf. lia.
+  Qed.
+
+  (* ---- GSUB5, format 1 ---- *)
+  Definition ctx_rule_ok (e : N * (list N * actions)) : Prop :=
+    gids_ok F (fst e :: fst (snd e)) = true /\ acts_ok (snd (snd e)) = true.
+
+  Lemma ctx1_toks_false : forall e mm l,
+    ctx1_toks U F (e :: mm) false l = t_comma l :: ctx1_toks U F (e :: mm) true l.
+  Proof. intros [g [i a]] mm l. reflexivity. Qed.
+
+  Lemma ends_list_not_int : forall t, ends_list t = true -> ityp_eqb (ttyp t) TInt = false.
+  Proof.
+    intros t H. unfold ends_list in H. apply andb_true_iff in H. destruct H as [H _].
+    destruct (ttyp t); cbn in *; auto; discriminate.
+  Qed.
+
+  Lemma ctx1_loop_ok : forall mm l fuel data t0 rest,
+    mm <> [] -> Forall ctx_rule_ok mm -> ends_list t0 = true ->
+    (length (ctx1_toks U F mm true l ++ t0 :: rest) < fuel)%nat ->
+    ctx1_loop F endl fuel data (ctx1_toks U F mm true l ++ t0 :: rest) = POk (data ++ mm, t0 :: rest).
+  Proof.
+    induction mm as [|[g [inp acts]] mm IH]; intros l fuel data t0 rest Hn Hm Ht Hf; [congruence|].
+    destruct fuel as [|f]; [cbn in Hf; lia|].
+    destruct (ends_list_props _ Ht) as (Hstop & Hnc & Hne). pose proof (ends_list_not_int _ Ht) as Hni.
+    inversion Hm as [|? ? Hk Hmm]; subst. destruct Hk as [Hk Ho]. cbn [fst snd] in Hk, Ho.
+    cbn [ctx1_toks app ctx1_loop]. rewrite <- !app_assoc. cbn [app].
+    unfold bind at 1.
+    rewrite (rgl_gl (g :: inp) l (S f) (t_arrow l)); auto; [|clear - Hf; cbn [ctx1_toks] in Hf; fuel_tac].
+    unfold bind at 1. rewrite required_hit by reflexivity.
+    unfold bind at 1.
+    destruct mm as [|e' mm'].
+    - cbn [ctx1_toks app]. rewrite app_nil_r.
+      rewrite read_nested_exact; auto; [|clear - Hf; cbn [ctx1_toks] in Hf; fuel_tac].
+      cbn [app]. unfold bind at 1. rewrite optional_miss by auto. reflexivity.
+    - rewrite ctx1_toks_false. cbn [app]. rewrite <- app_assoc. cbn [app].
+      rewrite read_nested_exact; auto; [|clear - Hf; cbn [ctx1_toks] in Hf; fuel_tac].
+      cbn [app]. unfold bind at 1. rewrite optional_hit by reflexivity.
+      unfold bind at 1.
+      assert (Hopt : forall ts, optional endl TEOL (ctx1_toks U F (e' :: mm') true l ++ ts)
+                                = POk (false, ctx1_toks U F (e' :: mm') true l ++ ts)).
+      { intros ts. destruct e' as [k' [c' o']]. cbn [ctx1_toks app].
+        destruct (gl_toks_head k' c' l) as (t & tt' & E & A). rewrite E. cbn [app].
+        destruct (after_flags_props _ A) as [A1 A2]. apply optional_miss; auto. }
+      rewrite Hopt.
+      replace (data ++ (g, (inp, acts)) :: e' :: mm') with ((data ++ [(g, (inp, acts))]) ++ e' :: mm')
+        by (rewrite <- app_assoc; reflexivity).
+      apply IH; auto; [discriminate|].
+      clear - Hf. destruct e' as [k' [c' o']]. cbn [ctx1_toks] in *. fuel_tac.
+  Qed.
+
+  (* ---- GSUB5, format 2: class names ---- *)
+  Definition cls_name (c : N) : list N := if c =? 0 then [] else cname c.
+
+  Lemma read_class_names_ok : forall cs l fuel acc t0 rest,
+    ityp_eqb (ttyp t0) TColon = false -> ityp_eqb (ttyp t0) TEOF = false ->
+    (length cs < fuel)%nat ->
+    read_class_names endl fuel acc (concat (map (fun x => class_toks x l) cs) ++ t0 :: rest)
+    = POk (acc ++ map cls_name cs, t0 :: rest).
+  Proof.
+    induction cs as [|c cs IH]; intros l fuel acc t0 rest Ht He Hf; (destruct fuel as [|f]; [cbn in Hf; lia|]).
+    - cbn [map concat app read_class_names]. unfold bind at 1. unfold peek, bind at 1. cbn [read].
+      unfold bind at 1. rewrite unread_cons by auto. unfold ret at 1. rewrite Ht. rewrite app_nil_r. reflexivity.
+    - cbn [map concat read_class_names]. rewrite <- app_assoc.
+      assert (Hc : exists r', class_toks c l = t_colon l :: r') by (unfold class_toks; destruct (c =? 0); eauto).
+      destruct Hc as (r' & Ec). rewrite Ec. cbn [app].
+      unfold bind at 1. unfold peek, bind at 1. cbn [read]. unfold bind at 1.
+      rewrite unread_cons by reflexivity. unfold ret at 1. cbn [ttyp t_colon ityp_eqb].
+      unfold bind at 1. unfold read_class_name. unfold bind at 1. rewrite required_hit by reflexivity.
+      unfold class_toks in Ec. unfold cls_name. destruct (c =? 0) eqn:E0; inversion Ec; subst; cbn [app].
+      + unfold bind at 1. cbn [read ttyp t_colon]. unfold ret at 1.
+        rewrite IH; auto; [|cbn in Hf; lia]. cbn [map]. rewrite <- app_assoc. reflexivity.
+      + unfold bind at 1. cbn [read ttyp]. unfold bind at 1. rewrite required_hit by reflexivity.
+        unfold ret at 1. cbn [tval].
+        rewrite IH; auto; [|cbn in Hf; lia]. cbn [map]. rewrite <- app_assoc. reflexivity.
+  Qed.
+
+  Fixpoint seqN (i : N) (n : nat) : list N := match n with O => [] | S k => i :: seqN (i + 1) k end.
+
+  Lemma cname_inj : forall a b, cname a = cname b -> a = b.
+  Proof. intros a b H. unfold cname in H. inversion H. apply digits_inj; auto. Qed.
+
+  Lemma class_index_cname : forall n i c, i <= c -> c < i + N.of_nat n ->
+    class_index_from (map cname (seqN i n)) i (cname c) = Some c.
+  Proof.
+    induction n as [|n IH]; intros i c H1 H2; [lia|]. cbn [seqN map class_index_from].
+    destruct (list_eqb (cname i) (cname c)) eqn:E.
+    - apply list_eqb_spec in E. apply cname_inj in E. congruence.
+    - apply IH; [|lia]. destruct (N.eq_dec i c) as [X|X]; [subst; rewrite list_eqb_refl in E; discriminate|lia].
+  Qed.
+
+  Lemma classes_of_cnames : forall k cs, Forall (fun c => c <= N.of_nat k) cs ->
+    classes_of (map cname (seqN 1 k)) (map cls_name cs) = Some cs.
+  Proof.
+    intros k. induction cs as [|c cs IH]; intros H; [reflexivity|]. inversion H; subst.
+    cbn [map classes_of]. rewrite IH by auto. unfold class_of, cls_name.
+    destruct (c =? 0) eqn:E0.
+    - cbn [is_nil]. apply N.eqb_eq in E0. subst. reflexivity.
+    - unfold cname at 1. cbn [is_nil]. rewrite class_index_cname by lia. reflexivity.
+  Qed.
+
+  Lemma ctx2_toks_false : forall e mm l,
+    ctx2_toks (e :: mm) false l = t_comma l :: ctx2_toks (e :: mm) true l.
+  Proof. intros [g [i a]] mm l. reflexivity. Qed.
+
+  Definition crule_ok (k : nat) (e : N * (list N * actions)) : Prop :=
+    Forall (fun c => c <= N.of_nat k) (fst e :: fst (snd e)) /\ acts_ok (snd (snd e)) = true.
+
+  Lemma class_toks_len : forall cs l, (length cs <= length (concat (map (fun x => class_toks x l) cs)))%nat.
+  Proof.
+    induction cs as [|c cs IH]; intros l; cbn [map concat length]; [lia|]. rewrite app_length.
+    specialize (IH l).
+    assert (X : (1 <= length (class_toks c l))%nat) by (unfold class_toks; destruct (c =? 0); cbn; lia). lia.
+  Qed.
+
+  Lemma ctx2_loop_ok : forall mm k l fuel data t0 rest,
+    mm <> [] -> Forall (crule_ok k) mm -> ends_list t0 = true ->
+    (length (ctx2_toks mm true l ++ t0 :: rest) < fuel)%nat ->
+    ctx2_loop endl fuel (map cname (seqN 1 k)) data (ctx2_toks mm true l ++ t0 :: rest)
+    = POk (data ++ mm, t0 :: rest).
+  Proof.
+    induction mm as [|[c [inp acts]] mm IH]; intros k l fuel data t0 rest Hn Hm Ht Hf; [congruence|].
+    destruct fuel as [|f]; [cbn in Hf; lia|].
+    destruct (ends_list_props _ Ht) as (Hstop & Hnc & Hne). pose proof (ends_list_not_int _ Ht) as Hni.
+    inversion Hm as [|? ? Hk Hmm]; subst. destruct Hk as [Hk Ho]. cbn [fst snd] in Hk, Ho.
+    cbn [ctx2_toks app ctx2_loop]. rewrite <- !app_assoc. cbn [app].
+    unfold bind at 1.
+    rewrite (read_class_names_ok (c :: inp) l (S f) [] (t_arrow l)); try reflexivity;
+      [|pose proof (class_toks_len (c :: inp) l) as Hcl; clear - Hf Hcl; cbn [ctx2_toks] in Hf; fuel_tac].
+    unfold bind at 1. rewrite required_hit by reflexivity.
+    unfold bind at 1. cbn [app map is_nil].
+    assert (Ecl : classes_of (map cname (seqN 1 k)) (cls_name c :: map cls_name inp) = Some (c :: inp))
+      by (apply (classes_of_cnames k (c :: inp)); exact Hk).
+    destruct mm as [|e' mm'].
+    - cbn [ctx2_toks app]. rewrite app_nil_r.
+      rewrite read_nested_exact; auto; [|clear - Hf; cbn [ctx2_toks] in Hf; fuel_tac].
+      rewrite Ecl. unfold bind at 1. rewrite optional_miss by auto. reflexivity.
+    - rewrite ctx2_toks_false. cbn [app]. rewrite <- app_assoc. cbn [app].
+      rewrite read_nested_exact; auto; [|clear - Hf; cbn [ctx2_toks] in Hf; fuel_tac].
+      rewrite Ecl. unfold bind at 1. rewrite optional_hit by reflexivity.
+      unfold bind at 1.
+      assert (Hopt : forall ts, optional endl TEOL (ctx2_toks (e' :: mm') true l ++ ts)
+                                = POk (false, ctx2_toks (e' :: mm') true l ++ ts)).
+      { intros ts. destruct e' as [c' [i' a']]. cbn [ctx2_toks app map concat].
+        assert (Hc : exists r', class_toks c' l = t_colon l :: r')
+          by (unfold class_toks; destruct (c' =? 0); eauto).
+        destruct Hc as (r' & Ec). rewrite Ec. cbn [app]. apply optional_miss; reflexivity. }
+      rewrite Hopt.
+      replace (data ++ (c, (inp, acts)) :: e' :: mm') with ((data ++ [(c, (inp, acts))]) ++ e' :: mm')
+        by (rewrite <- app_assoc; reflexivity).
+      apply IH; auto; [discriminate|].
+      clear - Hf. destruct e' as [c' [i' a']]. cbn [ctx2_toks] in *. fuel_tac.
+  Qed.
+
+  (* ---- GSUB5, format 3: coverage sets up to "->" ---- *)
+  Lemma ctx3_sets_ok : forall sets l fuel acc rest,
+    sets <> [] -> Forall (fun s => ascending s /\ gids_ok F s = true) sets ->
+    (length (concat (map (fun s => gs_toks U F s l) sets)) < fuel)%nat ->
+    ctx3_sets F endl fuel acc (concat (map (fun s => gs_toks U F s l) sets) ++ t_arrow l :: rest)
+    = POk (acc ++ sets, rest).
+  Proof.
+    induction sets as [|s sets IH]; intros l fuel acc rest Hn Hs Hf; [congruence|].
+    destruct fuel as [|f]; [cbn in Hf; lia|].
+    inversion Hs as [|? ? H1 H2]; subst. destruct H1 as [Ha Hg].
+    cbn [map concat ctx3_sets]. rewrite <- app_assoc.
+    unfold bind at 1. rewrite rgs_ok; auto; [|clear - Hf; cbn [map concat] in Hf; unfold gs_toks in Hf; fuel_tac].
+    destruct sets as [|s' sets'].
+    - cbn [map concat app]. unfold bind at 1. rewrite optional_hit by reflexivity. reflexivity.
+    - cbn [map concat]. unfold gs_toks at 1. cbn [app].
+      unfold bind at 1. rewrite optional_miss by reflexivity.
+      change (tk TLBr [91] l :: (gl_toks U F s' l ++ [tk TRBr [93] l]) ++ concat (map (fun s0 => gs_toks U F s0 l) sets') ++ t_arrow l :: rest)
+        with ((gs_toks U F s' l ++ concat (map (fun s0 => gs_toks U F s0 l) sets')) ++ t_arrow l :: rest).
+      replace (acc ++ s :: s' :: sets') with ((acc ++ [s]) ++ s' :: sets') by (rewrite <- app_assoc; reflexivity).
+      apply (IH l f (acc ++ [s]) rest); auto; [discriminate|].
+      clear - Hf. cbn [map concat] in *. unfold gs_toks in Hf at 1. fuel_tac.
+  Qed.
+
+  (* ---- GSUB5: class definitions ---- *)
+  Lemma seqN_snoc : forall n i, seqN i (S n) = seqN i n ++ [i + N.of_nat n].
+  Proof.
+    induction n as [|n IH]; intros i.
+    - cbn. rewrite N.add_0_r. reflexivity.
+    - change (seqN i (S (S n))) with (i :: seqN (i + 1) (S n)). rewrite IH. cbn [seqN app].
+      f_equal. f_equal. f_equal. lia.
+  Qed.
+
+  Lemma cname_fresh : forall n i c, i + N.of_nat n <= c ->
+    existsb (list_eqb (cname c)) (map cname (seqN i n)) = false.
+  Proof.
+    induction n as [|n IH]; intros i c H; [reflexivity|]. cbn [seqN map existsb].
+    rewrite IH by lia. rewrite list_eqb_neq; [reflexivity|]. intros E. apply cname_inj in E. lia.
+  Qed.
+
+  Lemma nodupN_app_disjoint : forall a b, nodupN (a ++ b) = true ->
+    forall g, In g b -> existsb (N.eqb g) a = false.
+  Proof.
+    induction a as [|x a IH]; intros b H g Hg; [reflexivity|].
+    cbn [app nodupN] in H. apply andb_true_iff in H. destruct H as [H1 H2].
+    cbn [existsb]. rewrite (IH b H2 g Hg). apply negb_true_iff in H1.
+    destruct (g =? x) eqn:E; [|reflexivity]. apply N.eqb_eq in E. subst.
+    assert (X : existsb (N.eqb x) (a ++ b) = true).
+    { apply existsb_exists. exists x. split; [apply in_or_app; right; auto|apply N.eqb_refl]. }
+    congruence.
+  Qed.
+
+  Lemma nodupN_app_l : forall a b, nodupN (a ++ b) = true -> nodupN a = true.
+  Proof.
+    induction a as [|x a IH]; intros b H; [reflexivity|].
+    cbn [app nodupN] in *. apply andb_true_iff in H. destruct H as [H1 H2].
+    rewrite (IH b H2), andb_true_r. apply negb_true_iff in H1. apply negb_true_iff.
+    destruct (existsb (N.eqb x) a) eqn:E; [|reflexivity].
+    apply existsb_exists in E. destruct E as (y & Hy & Ey).
+    assert (X : existsb (N.eqb x) (a ++ b) = true).
+    { apply existsb_exists. exists y. split; [apply in_or_app; left; auto|auto]. }
+    congruence.
+  Qed.
+
+  Definition class_ok (gl : list N) : Prop := gl <> [] /\ ascending gl /\ gids_ok F gl = true.
+
+  Lemma seqctx_classes : forall post pre l fu subs X,
+    Forall class_ok post ->
+    nodupN (concat (pre ++ post)) = true ->
+    (length (defcls_toks U F k_class post (N.of_nat (length pre) + 1) l) <= length post + fu)%nat ->
+    seqctx_loop F endl (length post + fu) (map cname (seqN 1 (length pre))) pre subs
+      (defcls_toks U F k_class post (N.of_nat (length pre) + 1) l ++ X)
+    = seqctx_loop F endl fu (map cname (seqN 1 (length pre + length post))) (pre ++ post) subs
+        X.
+  Proof.
+    induction post as [|gl post IH]; intros pre l fu subs X Hc Hd Hf.
+    - cbn [length defcls_toks app]. rewrite Nat.add_0_r, app_nil_r. reflexivity.
+    - inversion Hc as [|? ? Hg Hc']; subst. destruct Hg as (Hn & Ha & Hg).
+      cbn [length defcls_toks]. rewrite <- !app_assoc. cbn [app plus seqctx_loop].
+      unfold bind at 1. unfold peek, bind at 1. cbn [read]. unfold bind at 1.
+      rewrite unread_cons by reflexivity. unfold ret at 1.
+      change (is_ident (tk TIdent k_class l) k_class) with true. cbv iota.
+      unfold bind at 1. unfold parse_class_def.
+      unfold bind at 1. rewrite read_identifier_hit.
+      unfold bind at 1. rewrite required_hit by reflexivity.
+      unfold bind at 1. rewrite read_identifier_hit.
+      unfold bind at 1. rewrite required_hit by reflexivity.
+      unfold bind at 1. rewrite optional_hit by reflexivity.
+      unfold bind at 1. rewrite rgs_ok; auto;
+        [|clear - Hf; cbn [defcls_toks] in Hf; unfold gs_toks in Hf; fuel_tac].
+      destruct gl as [|g0 gl']; [congruence|]. cbn [is_nil]. unfold ret at 1. cbn [fst snd].
+      rewrite cname_fresh by lia.
+      assert (Eov : existsb (fun g => existsb (N.eqb g) (concat pre)) (g0 :: gl') = false).
+      { destruct (existsb _ (g0 :: gl')) eqn:E; [|reflexivity]. apply existsb_exists in E.
+        destruct E as (g & Hin & Eg). rewrite concat_app in Hd. cbn [concat] in Hd. rewrite app_assoc in Hd.
+        apply nodupN_app_l in Hd. rewrite (nodupN_app_disjoint _ _ Hd g Hin) in Eg. discriminate. }
+      rewrite Eov. unfold bind at 1. rewrite optional_hit by reflexivity.
+      replace (map cname (seqN 1 (length pre)) ++ [cname (N.of_nat (length pre) + 1)])
+        with (map cname (seqN 1 (length (pre ++ [g0 :: gl'])))).
+      2:{ rewrite app_length. cbn [length]. rewrite Nat.add_1_r. rewrite seqN_snoc, map_app. cbn [map].
+          f_equal. f_equal. f_equal. lia. }
+      replace (N.of_nat (length pre) + 1 + 1) with (N.of_nat (length (pre ++ [g0 :: gl'])) + 1)
+        by (rewrite app_length; cbn [length]; lia).
+      rewrite (IH (pre ++ [g0 :: gl']) (l + 1) fu subs X); auto.
+      + rewrite app_length. cbn [length]. rewrite <- app_assoc. cbn [app].
+        replace (length pre + 1 + length post)%nat with (length pre + S (length post))%nat by lia. reflexivity.
+      + rewrite <- app_assoc. exact Hd.
+      + clear - Hf. cbn [defcls_toks] in Hf. rewrite app_length. cbn [length].
+        replace (N.of_nat (length pre + 1) + 1) with (N.of_nat (length pre) + 1 + 1) by lia. fuel_tac.
+  Qed.
+
+  (* ---- GSUB5: one subtable, then the list ---- *)
+  Hypothesis HK : no_class_names F = true.
+
+  Lemma raw_name_not_class : forall g, raw_name F g <> k_class.
+  Proof.
+    intros g E. unfold raw_name in E. unfold no_class_names in HK. rewrite forallb_forall in HK.
+    destruct (nth_in_or_default (N.to_nat g) (f_names F) []) as [Hin|Hd].
+    - specialize (HK _ Hin). rewrite E in HK. rewrite list_eqb_refl in HK. discriminate.
+    - rewrite Hd in E. discriminate.
+  Qed.
+
+  Lemma name_tok_not_class : forall g l, is_ident (name_tok F g l) k_class = false.
+  Proof.
+    intros g l. unfold name_tok. destruct (is_nil (raw_name F g)); [reflexivity|].
+    unfold is_ident. cbn [ttyp tval ityp_eqb andb]. apply list_eqb_neq. apply raw_name_not_class.
+  Qed.
+
+  Lemma glyph_tok_not_class : forall g l, is_ident (glyph_tok U F g l) k_class = false.
+  Proof.
+    intros g l. unfold glyph_tok. destruct (list_eqb _ _); [apply name_tok_not_class|].
+    destruct (negb _); [reflexivity|apply name_tok_not_class].
+  Qed.
+
+  (* the first item of a glyph list: a glyph, never a keyword, "/" or "[" *)
+  Lemma gl_toks_head' : forall g gs l, exists t ts, gl_toks U F (g :: gs) l = t :: ts /\
+    after_flags t = true /\ is_ident t k_class = false /\
+    ityp_eqb (ttyp t) TSlash = false /\ ityp_eqb (ttyp t) TLBr = false.
+  Proof.
+    intros g gs l. destruct gs as [|g' gs].
+    - cbn. eexists. eexists. split; [reflexivity|]. split; [apply after_flags_glyph_tok|].
+      split; [apply glyph_tok_not_class|]. destruct (glyph_tok_typ g l) as [E|[E|E]]; rewrite E; auto.
+    - unfold gl_toks. cbv beta iota. destruct (forallb _ _).
+      + eexists. eexists. repeat split; reflexivity.
+      + cbn [map]. eexists. eexists. split; [reflexivity|]. split; [apply after_flags_name_tok|].
+        split; [apply name_tok_not_class|]. destruct (name_tok_typ g l) as [E|E]; rewrite E; auto.
+  Qed.
+
+  Definition nclasses (c : ctx_sub) : nat :=
+    match c with SeqCtx2 _ classes _ => length classes | _ => 0%nat end.
+
+  Lemma defcls_len : forall kw classes i l, (length classes <= length (defcls_toks U F kw classes i l))%nat.
+  Proof.
+    intros kw classes. induction classes as [|gl r IH]; intros i l; cbn [defcls_toks length]; [lia|].
+    rewrite !app_length. specialize (IH (i + 1) (l + 1)). cbn [length]. lia.
+  Qed.
+
+  Lemma nclasses_len : forall c l, (nclasses c <= length (ctx_toks U F c l))%nat.
+  Proof.
+    intros [cov rules|cov classes rules|input acts] l; cbn [nclasses]; try lia.
+    unfold ctx_toks. rewrite app_length. pose proof (defcls_len k_class classes 1 l). lia.
+  Qed.
+
+  Definition ctx_cont (fu : nat) (subs : list subtable) (c : ctx_sub) : P (list subtable) :=
+    b <- optional endl TOr ;;
+    if b then (optional endl TEOL ;;; seqctx_loop F endl fu [] [] (subs ++ [Ctx c])) else ret (subs ++ [Ctx c]).
+
+  Ltac split_wf' H := repeat (apply andb_true_iff in H; destruct H as [H ?]).
+
+  Lemma seqctx_step : forall c l fu subs t1 rest,
+    ctx_wf F c = true -> ends_list t1 = true ->
+    (length (ctx_toks U F c l ++ t1 :: rest) < nclasses c + S fu)%nat ->
+    seqctx_loop F endl (nclasses c + S fu) [] [] subs (ctx_toks U F c l ++ t1 :: rest)
+    = ctx_cont fu subs c (t1 :: rest).
+  Proof.
+    intros c l fu subs t1 rest W Ht Hf.
+    destruct (ends_list_props _ Ht) as (Hstop & Hnc & Hne). pose proof (ends_list_not_int _ Ht) as Hni.
+    destruct c as [cov rules|cov classes rules|input acts]; cbn [ctx_wf] in W; split_wf' W;
+      cbn [nclasses plus] in *; unfold ctx_toks in *.
+    - (* format 1 *)
+      assert (Ha : ascending cov) by (apply ascendingb_spec; assumption).
+      assert (Hc : Forall (fun g => g < num_glyphs F) cov) by (apply gids_ok_forall; assumption).
+      assert (Hl : length cov = length rules) by (apply Nat.eqb_eq; assumption).
+      match goal with Hx : forallb _ rules = true |- _ => apply forallb_Forall in Hx; rename Hx into W0 end.
+      assert (Hne' : Forall (fun r => r <> []) rules).
+      { eapply Forall_impl; [|exact W0]. cbn. intros a Hx. apply andb_true_iff in Hx. destruct Hx as [X _].
+        destruct a; [discriminate|congruence]. }
+      rewrite flat_rules_groups in *.
+      assert (Hgn : exists g inp acts mm, groups cov rules = (g, (inp, acts)) :: mm).
+      { destruct cov as [|g cov']; [discriminate|]. destruct rules as [|r rules']; [discriminate|].
+        inversion Hne'; subst. destruct r as [|[i a] r']; [congruence|]. rewrite groups_cons. cbn. eauto. }
+      destruct Hgn as (g & inp & acts & mm & Eg).
+      assert (Hall : Forall ctx_rule_ok (groups cov rules)).
+      { apply Forall_forall. intros [key [i a]] Hin. unfold groups in Hin.
+        apply in_concat in Hin. destruct Hin as (grp & Hgrp & Hin). apply in_map_iff in Hgrp.
+        destruct Hgrp as ([k ls] & E & Hcb). subst grp. cbn [fst snd] in Hin.
+        apply in_map_iff in Hin. destruct Hin as (lg & E & Hlg). inversion E; subst; clear E.
+        pose proof (in_combine_l _ _ _ _ Hcb) as Hk. pose proof (in_combine_r _ _ _ _ Hcb) as Hls.
+        rewrite Forall_forall in Hc, W0. specialize (Hc _ Hk). specialize (W0 _ Hls). cbn in W0.
+        apply andb_true_iff in W0. destruct W0 as [_ W0]. rewrite forallb_forall in W0.
+        specialize (W0 _ Hlg). apply andb_true_iff in W0. destruct W0 as [Wa Wb]. cbn [fst snd] in Wa, Wb.
+        split; cbn [fst snd]; auto. unfold gids_ok in *. cbn [forallb]. rewrite Wa.
+        assert (E : (key <? num_glyphs F) = true) by lia. rewrite E. reflexivity. }
+      cbn [seqctx_loop].
+      assert (Eh : exists t ts, ctx1_toks U F (groups cov rules) true l ++ t1 :: rest = t :: ts /\
+                   ityp_eqb (ttyp t) TEOF = false /\ is_ident t k_class = false /\
+                   ityp_eqb (ttyp t) TSlash = false /\ ityp_eqb (ttyp t) TLBr = false).
+      { rewrite Eg. cbn [ctx1_toks app]. destruct (gl_toks_head' g inp l) as (t & ts & E & A & B & C & D).
+        rewrite E. cbn [app]. exists t. eexists. split; [reflexivity|].
+        destruct (after_flags_props _ A). auto. }
+      destruct Eh as (t & ts & Et & E1 & E2 & E3 & E4). rewrite Et.
+      unfold bind at 1. unfold peek, bind at 1. cbn [read]. unfold bind at 1.
+      rewrite unread_cons by auto. unfold ret at 1. rewrite E2, E3, E4. rewrite <- Et.
+      unfold bind at 1. unfold bind at 1.
+      rewrite (ctx1_loop_ok (groups cov rules) l (S fu) [] t1 rest); auto; [|rewrite Eg; discriminate].
+      cbn [app]. unfold ret at 1. cbv zeta. unfold build_cov.
+      destruct (groups_keys cov rules Ha Hl Hne') as [K1 K2]. rewrite K1, K2.
+      rewrite vals_of_groups by auto. reflexivity.
+    - (* format 2 *)
+      assert (Ha : ascending cov) by (apply ascendingb_spec; assumption).
+      match goal with Hx : (length rules =? S (length classes))%nat = true |- _ => apply Nat.eqb_eq in Hx; rename Hx into Hlr end.
+      match goal with Hx : forallb _ classes = true |- _ => apply forallb_Forall in Hx; rename Hx into Wc end.
+      assert (Hcl : Forall class_ok classes).
+      { eapply Forall_impl; [|exact Wc]. cbn. intros a Hx. split_wf' Hx. repeat split; auto.
+        - destruct a; [discriminate|congruence].
+        - apply ascendingb_spec; auto. }
+      set (k := length classes) in *.
+      set (l' := l + N.of_nat k) in *.
+      set (mm := flat_rules (index_from 0 rules)) in *.
+      assert (Hmne : mm <> []).
+      { match goal with Hx : negb (is_nil (concat rules)) = true |- _ => rename Hx into Hn end.
+        unfold mm. clear - Hn. generalize 0. induction rules as [|rs r IH]; intros i; [discriminate|].
+        cbn [index_from]. unfold flat_rules. cbn [map concat fst snd]. destruct rs as [|x rs'].
+        - cbn [map app]. apply IH. exact Hn.
+        - discriminate. }
+      assert (Hmm : Forall (crule_ok k) mm).
+      { match goal with Hx : forallb (forallb _) rules = true |- _ => rename Hx into Wr end.
+        unfold mm. apply Forall_forall. intros [c [i a]] Hin. unfold flat_rules in Hin.
+        apply in_concat in Hin. destruct Hin as (grp & Hgrp & Hin). apply in_map_iff in Hgrp.
+        destruct Hgrp as ([c' rs] & E & Hidx). subst grp. cbn [fst snd] in Hin.
+        apply in_map_iff in Hin. destruct Hin as (r & E & Hr). inversion E; subst; clear E.
+        assert (Hrs : In rs rules /\ c < N.of_nat (length rules)).
+        { clear - Hidx. assert (G : forall j, In (c, rs) (index_from j rules) -> In rs rules /\ j <= c /\ c < j + N.of_nat (length rules)).
+          { clear. induction rules as [|x r IH]; intros j Hj; [contradiction|]. cbn [index_from] in Hj. destruct Hj as [Hj|Hj].
+            - inversion Hj; subst. split; [left; auto|cbn [length]; lia].
+            - destruct (IH (j + 1) Hj) as (A & B & C). split; [right; auto|cbn [length]; lia]. }
+          destruct (G 0 Hidx) as (A & B & C). split; auto. }
+        destruct Hrs as [Hrs Hcl']. rewrite forallb_forall in Wr. specialize (Wr _ Hrs).
+        rewrite forallb_forall in Wr. specialize (Wr _ Hr). apply andb_true_iff in Wr. destruct Wr as [Wa Wb].
+        cbn [fst snd] in *. split; [|exact Wb]. constructor.
+        { rewrite Hlr in Hcl'. cbn [fst]. lia. }
+        apply forallb_Forall in Wa. eapply Forall_impl; [|exact Wa]. cbn. intros x Hx. lia. }
+      rewrite <- !app_assoc in *. cbn [app] in *.
+      pose proof (seqctx_classes classes [] l (S fu) subs
+                    (t_slash l' :: gl_toks U F cov l' ++ t_slash l' :: ctx2_toks mm true l' ++ t1 :: rest)) as Hcls.
+      cbn [length app seqN map] in Hcls. change (N.of_nat 0 + 1) with 1 in Hcls. fold k in Hcls.
+      rewrite Hcls; auto; [|clear - Hf; pose proof (defcls_len k_class classes 1 l); fuel_tac].
+      clear Hcls. cbn [plus seqctx_loop].
+      unfold bind at 1. unfold peek, bind at 1. cbn [read]. unfold bind at 1.
+      rewrite unread_cons by reflexivity. unfold ret at 1.
+      change (is_ident (t_slash l') k_class) with false. cbn [ttyp t_slash ityp_eqb].
+      unfold bind at 1. unfold bind at 1. rewrite required_hit by reflexivity.
+      unfold bind at 1.
+      rewrite (rgl_gl cov l' (S fu) (t_slash l')); auto;
+        [|clear - Hf; pose proof (defcls_len k_class classes 1 l); fuel_tac].
+      unfold bind at 1. rewrite required_hit by reflexivity.
+      unfold bind at 1.
+      rewrite (ctx2_loop_ok mm k l' (S fu) [] t1 rest); auto;
+        [|clear - Hf; pose proof (defcls_len k_class classes 1 l); fuel_tac].
+      cbn [app]. unfold ret at 1. rewrite sort_uniq_ascending by auto.
+      rewrite map_length.
+      assert (Esl : forall n i, length (seqN i n) = n) by (induction n; intros; cbn; auto).
+      rewrite Esl. fold k. rewrite <- Hlr.
+      assert (Ev : map (fun c => vals_of (N.of_nat c) mm) (seq 0 (length rules)) = rules).
+      { rewrite <- (vals_of_index rules 0) at 2. apply map_ext. intros c. rewrite N.add_0_l. reflexivity. }
+      rewrite Ev. reflexivity.
+    - (* format 3 *)
+      match goal with Hx : forallb _ input = true |- _ => apply forallb_Forall in Hx; rename Hx into Wi end.
+      assert (Hs : Forall (fun s => ascending s /\ gids_ok F s = true) input).
+      { eapply Forall_impl; [|exact Wi]. cbn. intros a Hx. apply andb_true_iff in Hx. destruct Hx.
+        split; auto. apply ascendingb_spec; auto. }
+      assert (Hn : input <> []) by (destruct input; [discriminate|congruence]).
+      rewrite <- !app_assoc in *. cbn [app seqctx_loop] in *.
+      assert (Eh : exists ts, concat (map (fun s => gs_toks U F s l) input) ++ t_arrow l :: nested_toks acts l ++ t1 :: rest
+                              = tk TLBr [91] l :: ts).
+      { destruct input as [|s r]; [congruence|]. cbn [map concat]. unfold gs_toks at 1. cbn [app]. eauto. }
+      destruct Eh as (ts & Et). rewrite Et.
+      unfold bind at 1. unfold peek, bind at 1. cbn [read]. unfold bind at 1.
+      rewrite unread_cons by reflexivity. unfold ret at 1.
+      change (is_ident (tk TLBr [91] l) k_class) with false. cbn [ttyp ityp_eqb]. rewrite <- Et.
+      unfold bind at 1. unfold bind at 1.
+      rewrite ctx3_sets_ok; auto; [|clear - Hf; fuel_tac].
+      cbn [app]. unfold bind at 1.
+      rewrite read_nested_exact; auto; try (clear - Hf; fuel_tac).
+  Qed.
+
   (* ---- parse(): whole descriptions ---- *)
   Lemma ends_list_eol : forall l, ends_list (tk TEOL [10] l) = true.
   Proof. reflexivity. Qed.
+
+  Lemma gsub_one_old : forall lk l fu acc t0 rest,
+    gsub_lookup_wf F lk = true -> ends_list t0 = true ->
+    (length (lookup_toks U F k_GSUB lk l ++ t0 :: rest) < S (S fu))%nat ->
+    parse_loop F endl (S (S fu)) acc (lookup_toks U F k_GSUB lk l ++ t0 :: rest)
+    = parse_loop F endl (S fu) (acc ++ [lk]) (t0 :: rest).
+  Proof.
+    intros lk l fu acc t0 rest Hlk Ht Hf.
+    unfold gsub_lookup_wf in Hlk. apply andb_true_iff in Hlk. destruct Hlk as [Hfl Hlk].
+    destruct lk as [ty fl subs]. cbn [l_type l_flags l_subs] in *.
+    destruct subs as [|s [|s' subs']]; try discriminate.
+    split_wf Hlk.
+    match goal with Hx : (sub_type s =? ty) = true |- _ => apply N.eqb_eq in Hx; subst ty end.
+    assert (Hwf : sub_wf F s = true) by assumption.
+    unfold lookup_toks, hdr_toks in *.
+    cbn [l_subs l_type l_flags subs_toks app] in *.
+    rewrite <- !app_assoc in *. cbn [app] in *.
+    destruct s as [c|cov delta|cov subst|cov repl|cov alts|cov repl|cov adj|cov adj]; try discriminate;
+      cbn [sub_type] in *; cbn [parse_loop]; unfold bind at 1; cbn [read ttyp tval];
+      [ change (list_eqb (k_GSUB ++ digits 1) k_GSUB1) with true
+      | change (list_eqb (k_GSUB ++ digits 1) k_GSUB1) with true
+      | change (list_eqb (k_GSUB ++ digits 2) k_GSUB1) with false;
+        change (list_eqb (k_GSUB ++ digits 2) k_GSUB2) with true
+      | change (list_eqb (k_GSUB ++ digits 3) k_GSUB1) with false;
+        change (list_eqb (k_GSUB ++ digits 3) k_GSUB2) with false;
+        change (list_eqb (k_GSUB ++ digits 3) k_GSUB3) with true
+      | change (list_eqb (k_GSUB ++ digits 4) k_GSUB1) with false;
+        change (list_eqb (k_GSUB ++ digits 4) k_GSUB2) with false;
+        change (list_eqb (k_GSUB ++ digits 4) k_GSUB3) with false;
+        change (list_eqb (k_GSUB ++ digits 4) k_GSUB4) with true ];
+      cbv iota; unfold bind at 1.
+    + rewrite read_gsub1_1_ok; auto. clear - Hf. fuel_tac.
+    + rewrite read_gsub1_2_ok; auto. clear - Hf. fuel_tac.
+    + rewrite read_gsub2_ok; auto. clear - Hf. fuel_tac.
+    + rewrite read_gsub3_ok; auto. clear - Hf. fuel_tac.
+    + rewrite read_gsub4_ok; auto. clear - Hf. fuel_tac.
+  Qed.
+
+  (* a list of lookups, each parsed by `one` *)
+  Lemma lookup_toks_len : forall kw lk l, l_subs lk <> [] -> (2 <= length (lookup_toks U F kw lk l))%nat.
+  Proof.
+    intros kw lk l H. unfold lookup_toks. destruct (l_subs lk) as [|s r]; [congruence|].
+    cbn [subs_toks]. unfold hdr_toks. cbn [app length]. lia.
+  Qed.
+
+  Lemma gsub_list_ok : forall (wf : lookup -> Prop),
+    (forall lk, wf lk -> l_subs lk <> []) ->
+    (forall (lk : lookup) (l : N) (fu : nat) (acc : list lookup) (lx : N) (rest : list token), wf lk ->
+       (length (lookup_toks U F k_GSUB lk l ++ tk TEOL [10%N] lx :: rest) < S (S fu))%nat ->
+       parse_loop F endl (S (S fu)) acc (lookup_toks U F k_GSUB lk l ++ tk TEOL [10] lx :: rest)
+       = parse_loop F endl (S fu) (acc ++ [lk]) (tk TEOL [10] lx :: rest)) ->
+    forall ll l fuel acc e, Forall wf ll ->
+    (length (gsub_toks U F ll l ++ [tk TEOF [] e]) < fuel)%nat ->
+    parse_loop F endl fuel acc (gsub_toks U F ll l ++ [tk TEOF [] e]) = POk (acc ++ ll, []).
+  Proof.
+    intros wf Hne Hone. induction ll as [|lk r IH]; intros l fuel acc e H Hf.
+    - destruct fuel; [cbn in Hf; lia|]. cbn. rewrite app_nil_r. reflexivity.
+    - inversion H as [|? ? Hlk Hr]; subst.
+      destruct fuel as [|[|fu]]; try (cbn in Hf; fuel_tac).
+      cbn [gsub_toks] in *. rewrite <- !app_assoc in *. cbn [app] in *.
+      rewrite Hone; [|exact Hlk|clear - Hf; fuel_tac].
+      destruct fu as [|fu']; [exfalso; clear - Hf; fuel_tac|].
+      change (parse_loop F endl (S (S fu')) (acc ++ [lk])
+                (tk TEOL [10] (l + subs_dl (l_subs lk)) :: gsub_toks U F r (l + subs_dl (l_subs lk) + 1) ++ [tk TEOF [] e]))
+        with (parse_loop F endl (S fu') (acc ++ [lk]) (gsub_toks U F r (l + subs_dl (l_subs lk) + 1) ++ [tk TEOF [] e])).
+      rewrite IH; auto; [rewrite <- app_assoc; reflexivity|].
+      pose proof (lookup_toks_len k_GSUB lk l (Hne lk Hlk)) as Hl2. clear - Hf Hl2. fuel_tac.
+  Qed.
 
   Lemma gsub_parse_ok : forall ll l fuel acc e,
     Forall (fun lk => gsub_lookup_wf F lk = true) ll ->
     (length (gsub_toks U F ll l ++ [tk TEOF [] e]) < fuel)%nat ->
     parse_loop F endl fuel acc (gsub_toks U F ll l ++ [tk TEOF [] e]) = POk (acc ++ ll, []).
   Proof.
-    induction ll as [|lk r IH]; intros l fuel acc e H Hf.
-    - destruct fuel; [cbn in Hf; lia|]. cbn. rewrite app_nil_r. reflexivity.
-    - inversion H as [|? ? Hlk Hr]; subst.
-      destruct fuel as [|[|fu]]; try (cbn in Hf; fuel_tac).
-      unfold gsub_lookup_wf in Hlk. apply andb_true_iff in Hlk. destruct Hlk as [Hfl Hlk].
-      destruct lk as [ty fl subs]. cbn [l_type l_flags l_subs] in *.
-      destruct subs as [|s [|s' subs']]; try discriminate.
-      split_wf Hlk.
-      match goal with Hx : (sub_type s =? ty) = true |- _ => apply N.eqb_eq in Hx; subst ty end.
-      assert (Hwf : sub_wf F s = true) by assumption.
-      cbn [gsub_toks l_subs l_type l_flags] in *. unfold lookup_toks, hdr_toks in *.
-      cbn [l_subs l_type l_flags subs_toks app] in *.
-      rewrite <- !app_assoc in *. cbn [app] in *.
-      set (rest := gsub_toks U F r (l + subs_dl [s] + 1) ++ [tk TEOF [] e]) in *.
-      set (t0 := tk TEOL [10] (l + subs_dl [s])) in *.
-      assert (Hcont : forall lk', parse_loop F endl (S fu) (acc ++ [lk']) (t0 :: rest) = POk (acc ++ lk' :: r, [])).
-      { intros lk'. destruct fu as [|fu']; [exfalso; unfold rest, t0 in *; clear - Hf; fuel_tac|].
-        change (parse_loop F endl (S (S fu')) (acc ++ [lk']) (t0 :: rest))
-          with (parse_loop F endl (S fu') (acc ++ [lk']) rest).
-        unfold rest. rewrite IH; auto; [rewrite <- app_assoc; reflexivity|].
-        unfold rest, t0 in *. clear - Hf. fuel_tac. }
-      assert (Hf' : forall X, (length (flag_toks fl l ++ X ++ t0 :: rest) < S (S fu))%nat ->
-                              (length (flag_toks fl l ++ X ++ t0 :: rest) < S (S fu))%nat) by auto.
-      destruct s as [c|cov delta|cov subst|cov repl|cov alts|cov repl|cov adj|cov adj]; try discriminate;
-        cbn [sub_type] in *; cbn [parse_loop]; unfold bind at 1; cbn [read ttyp tval];
-        [ change (list_eqb (k_GSUB ++ digits 1) k_GSUB1) with true
-        | change (list_eqb (k_GSUB ++ digits 1) k_GSUB1) with true
-        | change (list_eqb (k_GSUB ++ digits 2) k_GSUB1) with false;
-          change (list_eqb (k_GSUB ++ digits 2) k_GSUB2) with true
-        | change (list_eqb (k_GSUB ++ digits 3) k_GSUB1) with false;
-          change (list_eqb (k_GSUB ++ digits 3) k_GSUB2) with false;
-          change (list_eqb (k_GSUB ++ digits 3) k_GSUB3) with true
-        | change (list_eqb (k_GSUB ++ digits 4) k_GSUB1) with false;
-          change (list_eqb (k_GSUB ++ digits 4) k_GSUB2) with false;
-          change (list_eqb (k_GSUB ++ digits 4) k_GSUB3) with false;
-          change (list_eqb (k_GSUB ++ digits 4) k_GSUB4) with true ];
-        cbv iota; unfold bind at 1.
-      + rewrite read_gsub1_1_ok; auto; [apply Hcont|]. unfold rest, t0 in *. clear - Hf. fuel_tac.
-      + rewrite read_gsub1_2_ok; auto; [apply Hcont|]. unfold rest, t0 in *. clear - Hf. fuel_tac.
-      + rewrite read_gsub2_ok; auto; [apply Hcont|]. unfold rest, t0 in *. clear - Hf. fuel_tac.
-      + rewrite read_gsub3_ok; auto; [apply Hcont|]. unfold rest, t0 in *. clear - Hf. fuel_tac.
-      + rewrite read_gsub4_ok; auto; [apply Hcont|]. unfold rest, t0 in *. clear - Hf. fuel_tac.
+    apply (gsub_list_ok (fun lk => gsub_lookup_wf F lk = true)).
+    - intros lk H E. unfold gsub_lookup_wf in H. rewrite E in H. rewrite andb_false_r in H. discriminate.
+    - intros. apply gsub_one_old; auto.
+  Qed.
+
+  (* ---- GSUB5 lookups ---- *)
+  Lemma ctx_toks_head : forall c l, ctx_wf F c = true ->
+    exists t ts, ctx_toks U F c l = t :: ts /\ after_flags t = true.
+  Proof.
+    intros c l W. destruct c as [cov rules|cov classes rules|input acts]; cbn [ctx_wf] in W; split_wf' W;
+      unfold ctx_toks.
+    - match goal with Hx : forallb _ rules = true |- _ => apply forallb_Forall in Hx; rename Hx into W0 end.
+      destruct cov as [|g cov']; [discriminate|]. destruct rules as [|r rules']; [discriminate|].
+      inversion W0 as [|? ? Hr _]; subst. apply andb_true_iff in Hr. destruct Hr as [Hr _].
+      destruct r as [|[i a] r']; [discriminate|]. cbn [combine]. unfold flat_rules. cbn [map concat fst snd app ctx1_toks].
+      destruct (gl_toks_head g i l) as (t & ts & E & A). rewrite E. cbn [app]. eauto.
+    - destruct classes as [|gl r]; cbn [defcls_toks app]; eexists; eexists; split; reflexivity.
+    - destruct input as [|s r]; [discriminate|]. cbn [map concat]. unfold gs_toks at 1. cbn [app].
+      eexists. eexists. split; reflexivity.
+  Qed.
+
+  Lemma seqctx_loop_ok : forall cs hdr c l fuel acc t0 rest,
+    Forall (fun c => ctx_wf F c = true) (c :: cs) ->
+    ends_list t0 = true -> ityp_eqb (ttyp t0) TOr = false ->
+    (length (ctx_toks U F c l ++ subs_toks U F hdr (map Ctx cs) false (l + ctx_dl c) ++ t0 :: rest) < fuel)%nat ->
+    seqctx_loop F endl fuel [] [] acc (ctx_toks U F c l ++ subs_toks U F hdr (map Ctx cs) false (l + ctx_dl c) ++ t0 :: rest)
+    = POk (acc ++ Ctx c :: map Ctx cs, t0 :: rest).
+  Proof.
+    induction cs as [|c' cs IH]; intros hdr c l fuel acc t0 rest Hw Ht Hto Hf;
+      inversion Hw as [|? ? Hc Hcs]; subst;
+      pose proof (nclasses_len c l) as Hk.
+    - cbn [map subs_toks app] in *.
+      replace fuel with (nclasses c + S (fuel - nclasses c - 1))%nat by (clear - Hf Hk; fuel_tac).
+      rewrite seqctx_step; auto; [|clear - Hf Hk; fuel_tac].
+      unfold ctx_cont. unfold bind at 1. destruct (ends_list_props _ Ht) as (A & B & C).
+      rewrite optional_miss by auto. reflexivity.
+    - cbn [map subs_toks] in *. cbn [sub_toks sub_dl] in *. rewrite <- !app_assoc in *. cbn [app] in *.
+      set (l0 := l + ctx_dl c) in *.
+      replace fuel with (nclasses c + S (fuel - nclasses c - 1))%nat by (clear - Hf Hk; fuel_tac).
+      rewrite seqctx_step; auto; [|clear - Hf Hk; fuel_tac].
+      unfold ctx_cont. unfold bind at 1. rewrite optional_hit by reflexivity.
+      unfold bind at 1. rewrite optional_hit by reflexivity.
+      rewrite (IH hdr c' (l0 + 1) _ (acc ++ [Ctx c]) t0 rest); auto.
+      + rewrite <- app_assoc. reflexivity.
+      + clear - Hf Hk. fuel_tac.
+  Qed.
+
+  Lemma ctx_subs_shape : forall subs,
+    forallb (fun s => match s with Ctx c => ctx_wf F c | _ => false end) subs = true ->
+    exists cs, subs = map Ctx cs /\ Forall (fun c => ctx_wf F c = true) cs.
+  Proof.
+    induction subs as [|s r IH]; intros H.
+    - exists []. split; auto.
+    - cbn [forallb] in H. apply andb_true_iff in H. destruct H as [H1 H2].
+      destruct (IH H2) as (cs & E & Hc). destruct s; try discriminate. exists (c :: cs). subst. split; auto.
+  Qed.
+
+  Lemma gsub_one_ctx : forall lk l fu acc t0 rest,
+    ctx_lookup_wf F lk = true -> ends_list t0 = true -> ityp_eqb (ttyp t0) TOr = false ->
+    (length (lookup_toks U F k_GSUB lk l ++ t0 :: rest) < S (S fu))%nat ->
+    parse_loop F endl (S (S fu)) acc (lookup_toks U F k_GSUB lk l ++ t0 :: rest)
+    = parse_loop F endl (S fu) (acc ++ [lk]) (t0 :: rest).
+  Proof.
+    intros lk l fu acc t0 rest Hlk Ht Hto Hf.
+    unfold ctx_lookup_wf in Hlk. split_wf Hlk.
+    destruct lk as [ty fl subs]. cbn [l_type l_flags l_subs] in *.
+    match goal with Hx : (ty =? 5) = true |- _ => apply N.eqb_eq in Hx; subst ty end.
+    match goal with Hx : forallb _ subs = true |- _ => destruct (ctx_subs_shape _ Hx) as (cs & Es & Hcs) end.
+    subst subs. destruct cs as [|c cs]; [discriminate|].
+    unfold lookup_toks, hdr_toks in *. cbn [l_subs l_type l_flags map subs_toks sub_toks sub_dl app] in *.
+    rewrite <- !app_assoc in *. cbn [app] in *.
+    cbn [parse_loop]. unfold bind at 1. cbn [read ttyp tval].
+    change (list_eqb (k_GSUB ++ digits 5) k_GSUB1) with false.
+    change (list_eqb (k_GSUB ++ digits 5) k_GSUB2) with false.
+    change (list_eqb (k_GSUB ++ digits 5) k_GSUB3) with false.
+    change (list_eqb (k_GSUB ++ digits 5) k_GSUB4) with false.
+    change (list_eqb (k_GSUB ++ digits 5) k_GSUB5) with true. cbv iota.
+    unfold bind at 1. unfold read_seqctx. unfold bind at 1.
+    inversion Hcs as [|? ? Hc _]; subst.
+    rewrite header_ok'; auto; [| |clear - Hf; fuel_tac].
+    2:{ destruct (ctx_toks_head c l Hc) as (t & ts & E & A). rewrite E. cbn [app]. eauto. }
+    unfold bind at 1.
+    rewrite (seqctx_loop_ok cs _ c l (S (S fu)) [] t0 rest); auto; try (clear - Hf; fuel_tac).
+  Qed.
+
+  Lemma gsub5_parse_ok : forall ll l fuel acc e,
+    Forall (fun lk => gsub_lookup_wf5 F lk = true) ll ->
+    (length (gsub_toks U F ll l ++ [tk TEOF [] e]) < fuel)%nat ->
+    parse_loop F endl fuel acc (gsub_toks U F ll l ++ [tk TEOF [] e]) = POk (acc ++ ll, []).
+  Proof.
+    apply (gsub_list_ok (fun lk => gsub_lookup_wf5 F lk = true)).
+    { intros lk H E. unfold gsub_lookup_wf5, gsub_lookup_wf, ctx_lookup_wf in H. rewrite E in H.
+      cbn [is_nil negb] in H. rewrite !andb_false_r in H. discriminate. }
+    intros lk l fu acc lx rest Hw Hf. unfold gsub_lookup_wf5 in Hw. apply orb_true_iff in Hw.
+    destruct Hw as [Hw|Hw]; [apply gsub_one_old; auto|].
+    apply gsub_one_ctx; auto.
   Qed.
 
   Lemma gpos_head : forall lk l, gpos_lookup_wf F lk = true ->
@@ -1375,6 +1975,15 @@ Theorem parse_explain_gsub : forall U F ll,
 Proof.
   intros U F ll HF Hll. unfold M_parse. rewrite (ProofsExplain.lex_explain_gsub U F HF ll Hll).
   unfold M_parse_tokens. rewrite (gsub_parse_ok U F HF); auto. 
+Qed.
+
+Theorem parse_explain_gsub5 : forall U F ll,
+  font_wf U F = true -> no_class_names F = true ->
+  Forall (fun lk => gsub_lookup_wf5 F lk = true) ll ->
+  M_parse U F (M_explain_gsub U F ll) = POk ll.
+Proof.
+  intros U F ll HF HK Hll. unfold M_parse. rewrite (ProofsExplain.lex_explain_gsub5 U F HF ll Hll).
+  unfold M_parse_tokens. rewrite (gsub5_parse_ok U F HF _ HK); auto.
 Qed.
 
 Theorem parse_explain_gpos : forall U F ll,
